@@ -5,8 +5,12 @@ prop="$1"; patch="$2"; tier="${3:-quick}"
 cd /repo || exit 2
 if [ -n "$(git status --porcelain)" ]; then echo "repo not clean"; exit 2; fi
 git apply "$patch" || { echo "patch does not apply"; exit 2; }
-/verif/check "$prop" "$tier" > /tmp/mutant_$prop.log 2>&1; rc=$?
+# evidence and replays of a run against a changed tree go to a scratch root, never to /verif
+mkdir -p /tmp/mutant_home && cp /verif/known_findings.jsonl /tmp/mutant_home/ 2>/dev/null
+VERIF_HOME=/tmp/mutant_home /verif/check "$prop" "$tier" > /tmp/mutant_$prop.log 2>&1; rc=$?
 git checkout -- . ; git clean -fdq crates 2>/dev/null
+# rebuild against the restored tree so that no later command runs a binary built from the change
+(cd /verif/sim && cargo build --release --offline >/dev/null 2>&1)
 grep -a "^--- \|^\.\.\. \|^VIOLATION\|^HARNESS\|^KNOWN\|^\[sim" /tmp/mutant_$prop.log | tr -cd '\11\12\15\40-\176' | cut -c1-260 | head -30
 echo "exit=$rc"
 exit $rc
